@@ -337,6 +337,9 @@ def _new_var(f):
     return None
 
 
+EVALUATED_COPIES = ("AbelianArray", "FermionicArray")
+
+
 def check_complete(prog, ctx):
     """R14.4"""
     n = 0
@@ -357,6 +360,13 @@ def check_complete(prog, ctx):
                     calls = [c for c in walk_own(f.node) if isinstance(c, ast.Call)
                              and src(c.func).endswith(".__class__")]
                     rets = [r for r in walk_own(f.node) if isinstance(r, ast.Return)]
+                    if not (calls and rets) and ci.name in EVALUATED_COPIES:
+                        # another way of building the copy (a helper, super().copy() passed on): R14.8 evaluates copy / copy_with of
+                        # the array classes and demands every slot of the class on the result
+                        ctx.ok("R14.4", f"{f.file}:{f.qualname}", f"{ci.name}.{mname}: form of the copy not recognised; slot completeness of the "
+                                                                   "result is decided by R14.8 (evaluation)")
+                        n += 1
+                        continue
                     ctx.check(bool(calls and rets), "R14.4", f, f.node, "no new object",
                               f"{ci.name}.{mname} builds its result with __new__ or by calling the class constructor "
                               "(covered by __init__)")
@@ -516,6 +526,15 @@ def check_dynamic(prog, ctx):
     """dynamic features that would defeat the model are inventoried"""
     for f in prog.funcs.values():
         for n in walk_own(f.node):
+            if isinstance(n, ast.Call) and isinstance(n.func, ast.Name) and n.func.id == "setattr" and len(n.args) == 3:
+                from engine.effects import literal_strings
+
+                names = literal_strings(f, n.args[1])
+                if names is None:
+                    raise AnalysisError(f"{f.fq}: setattr() with a computed name defeats the effect model")
+                ctx.ok("R14.2", f"{f.file}:{f.qualname}", f"{src(n)}: the attribute name ranges over the literals {sorted(names)}; modelled as "
+                                                           "those attribute stores")
+                continue
             if isinstance(n, ast.Call) and isinstance(n.func, ast.Name) and n.func.id in ("setattr", "exec", "eval", "delattr"):
                 raise AnalysisError(f"{f.fq}: dynamic feature {n.func.id}() defeats the effect model")
             if isinstance(n, ast.Attribute) and n.attr == "__dict__":
@@ -534,32 +553,62 @@ def check_dynamic(prog, ctx):
                               "writes to its operand" + ("" if ok else f" ({why})"))
 
 
+def _call_sites(prog, target):
+    """(where, call node) of every call of the module-level function `target` by its name, inside functions and at module level"""
+    out = []
+    for g in prog.funcs.values():
+        if g.parent is not None:
+            continue
+        for c in ast.walk(g.node):
+            if isinstance(c, ast.Call) and isinstance(c.func, ast.Name) and c.func.id == target.name \
+                    and prog.resolve_name(g.module, target.name) is target:
+                out.append((g.qualname, c))
+    for m in prog.modules.values():
+        for st in m.tree.body:
+            if isinstance(st, (ast.FunctionDef, ast.AsyncFunctionDef, ast.ClassDef)):
+                continue
+            for c in ast.walk(st):
+                if isinstance(c, ast.Call) and isinstance(c.func, ast.Name) and c.func.id == target.name \
+                        and prog.resolve_name(m, target.name) is target:
+                    out.append((f"{m.name} (module level)", c))
+    return out
+
+
 def _dynamic_method_ok(prog, f, call):
-    from engine.effects import get_analyzer
+    """getattr(obj, <name>) with a computed name is understood when the name ranges over a finite set of literals:
+       (a) a loop / comprehension variable over a literal display of strings;
+       (b) a parameter of a private module-level helper, every call site of which passes a string literal;
+       (c) inside a nested function, a parameter of the enclosing private module-level factory, ditto.
+    None of the methods so named may write to its operand."""
+    from engine.effects import get_analyzer, literal_strings
 
     name_arg = call.args[1]
-    if not (isinstance(name_arg, ast.Name) and name_arg.id in f.all_params() and f.cls is None and f.name.startswith("_")):
-        return False, "the name is not a parameter of a private module-level helper"
-    pos = f.all_params().index(name_arg.id)
+    literals = literal_strings(f, name_arg)
+    if literals is None:
+        owner = f
+        while owner.parent is not None and not (isinstance(name_arg, ast.Name) and name_arg.id in owner.all_params()):
+            owner = owner.parent
+        if not (isinstance(name_arg, ast.Name) and name_arg.id in owner.all_params() and owner.cls is None and owner.parent is None
+                and owner.name.startswith("_")):
+            return False, "the name is neither a loop variable over literals nor a parameter of a private module-level helper / factory"
+        if owner is not f and any(isinstance(n_, (ast.Assign, ast.AugAssign, ast.NamedExpr, ast.For)) and any(
+                isinstance(x, ast.Name) and x.id == name_arg.id and isinstance(x.ctx, ast.Store) for x in ast.walk(n_))
+                for n_ in ast.walk(owner.node)):
+            return False, "the factory rebinds the name"
+        pos = owner.all_params().index(name_arg.id)
+        literals = set()
+        sites = _call_sites(prog, owner)
+        if not sites:
+            return False, "no call site found"
+        for where, c in sites:
+            a = c.args[pos] if pos < len(c.args) else None
+            for k in c.keywords:
+                if k.arg == name_arg.id:
+                    a = k.value
+            if not (isinstance(a, ast.Constant) and isinstance(a.value, str)):
+                return False, f"call site in {where} passes a non-literal name"
+            literals.add(a.value)
     an = get_analyzer(prog)
-    literals = set()
-    nsites = 0
-    for g in prog.funcs.values():
-        for c in ast.walk(g.node):
-            if isinstance(c, ast.Call) and isinstance(c.func, ast.Name) and c.func.id == f.name \
-                    and prog.resolve_name(g.module, f.name) is f:
-                nsites += 1
-                a = None
-                if pos < len(c.args):
-                    a = c.args[pos]
-                for k in c.keywords:
-                    if k.arg == name_arg.id:
-                        a = k.value
-                if not (isinstance(a, ast.Constant) and isinstance(a.value, str)):
-                    return False, f"call site in {g.qualname} passes a non-literal name"
-                literals.add(a.value)
-    if not nsites:
-        return False, "no call site found"
     for m in sorted(literals):
         for target in prog.methods_named(m):
             summ = an.summaries.get(target)
